@@ -62,7 +62,10 @@ func runOps(s *scn.Scenario, pl *scn.Pipeline, rec *pipeRec) {
 	rec.ops = make([]opResult, len(pl.Ops))
 	if rec.parse.root != nil {
 		for i := range pl.Ops {
-			rec.ops[i] = doOp(pl.Ops[i].Kind, rec.parse.root, len(in.Src), nil)
+			rec.ops[i] = doOp(pl.Ops[i].Kind, rec.parse.root, len(in.Src), pl.Ops[i].Fault)
+			if rec.ops[i].faulted {
+				zzsim.AddProbe(probeC11OpFault, 1)
+			}
 		}
 	}
 	rec.dump = fullDump(rec.parse.root, len(in.Src))
